@@ -198,6 +198,63 @@ fn cell_scenario(pb: Option<usize>, installers: usize, readers: usize, handoff: 
     });
 }
 
+/// C01, "otherwise to the global recorder": the recorder is installed before the threads start; `late` threads each try
+/// to install another one (must fail, recorder handed back) while `readers` threads look the cell up twice each, the way
+/// every emission without a local recorder does. Every lookup must find the installed recorder, whatever the others do.
+fn cell_preinstalled(pb: Option<usize>, late: usize, readers: usize) {
+    builder(pb).check(move || {
+        EXECS.fetch_add(1, StdOrdering::Relaxed);
+        let cell = Arc::new(RecorderOnceCell::new());
+        let hits = std::sync::Arc::new(StdAtomicUsize::new(0));
+        let drops: Vec<_> = (0..late + 1).map(|_| std::sync::Arc::new(StdAtomicUsize::new(0))).collect();
+        assert!(cell.set(R { id: 0, magic: 0xfeed_0000, hits: hits.clone(), drops: drops[0].clone() }).is_ok(), "sig=first-install-refused: first install refused");
+        let first = thin(cell.try_load().expect("sig=installed-recorder-invisible: installed recorder must be visible after install returned"));
+        let inst: Vec<_> = (1..=late)
+            .map(|i| {
+                let cell = cell.clone();
+                let hits = hits.clone();
+                let d = drops[i].clone();
+                loom::thread::spawn(move || {
+                    let r = R { id: i, magic: 0xfeed_0000 + i as u64, hits, drops: d.clone() };
+                    match cell.set(r) {
+                        Ok(()) => panic!("sig=install-not-exactly-once: a second install succeeded"),
+                        Err(e) => {
+                            assert_eq!(d.load(StdOrdering::SeqCst), 0, "sig=rejected-recorder-dropped: rejected recorder was dropped by the library");
+                            assert_eq!(e.0.magic, 0xfeed_0000 + i as u64, "sig=rejected-recorder-not-intact: rejected recorder not handed back intact");
+                            drop(e);
+                        }
+                    }
+                })
+            })
+            .collect();
+        let rds: Vec<_> = (0..readers)
+            .map(|_| {
+                let cell = cell.clone();
+                loom::thread::spawn(move || {
+                    for _ in 0..2 {
+                        let r = cell.try_load().expect("sig=emission-missed-global-recorder: a lookup on a thread without a local recorder fell through to no-op although the global recorder was installed before the thread started");
+                        assert_eq!(thin(r), first, "sig=later-emission-other-recorder: lookup returned a different recorder");
+                        r.describe_counter("x".into(), None, "d".into());
+                    }
+                })
+            })
+            .collect();
+        for h in inst {
+            h.join().unwrap();
+        }
+        for h in rds {
+            h.join().unwrap();
+        }
+        let r = cell.try_load().expect("sig=emission-missed-global-recorder: the installed recorder is no longer visible after a failed install");
+        assert_eq!(thin(r), first);
+        let h = hits.load(StdOrdering::SeqCst);
+        assert_eq!(h & 0xff, 2 * readers, "sig=emission-missed-global-recorder: not every emission reached the installed recorder");
+        assert_eq!(h >> 8, 0, "sig=emission-reached-losing-recorder: an emission reached a recorder that was never installed");
+        assert_eq!(drops[0].load(StdOrdering::SeqCst), 0, "sig=installed-recorder-dropped: installed recorder was dropped");
+        outcome(format!("hits={:#x}", h));
+    });
+}
+
 // ---------------------------------------------------------------- atomics.rs
 use at::{CounterFn, GaugeFn};
 use loom::sync::atomic::AtomicU64 as LAtomicU64;
@@ -433,6 +490,9 @@ fn main() {
         "cell_2i2r" => cell_scenario(pb, 2, 2, false),
         "cell_1i2r_handoff" => cell_scenario(pb, 1, 2, true),
         "cell_2i2r_handoff" => cell_scenario(pb, 2, 2, true),
+        "cell_pre_1l1r" => cell_preinstalled(pb, 1, 1),
+        "cell_pre_1l2r" => cell_preinstalled(pb, 1, 2),
+        "cell_pre_2l1r" => cell_preinstalled(pb, 2, 1),
         "cell_3i1r" => cell_scenario(pb, 3, 1, false),
         "counter_inc" => models = counter_scenario(pb, &C_INC, &[&[1, 1], &[2, 1], &[1, 1, 1], &[2, 2]], false),
         "counter_mix" => models = counter_scenario(pb, &C_MIX, &[&[1, 1], &[2, 1]], true),
